@@ -192,6 +192,7 @@ def random_case(rnd):
     return {"transport": tr, "keep_alive": rnd.random() < 0.5, "timeout": tau, "retries": r, "count": count,
             "level": level, "callers": callers, "faults": faults, "toggles": toggles,
             "same_contents": rnd.random() < 0.1, "cancel_callers": cancel_callers,
+            "info_at": [rnd.choice(offs)] if level == "inverter" and rnd.random() < 0.3 else [],
             # the object has been used from another event loop before (a previous asyncio.run)
             "prior_loop": rnd.choice([False] * 11 + [True, "contended", "contended"])}
 
@@ -206,6 +207,8 @@ def simplify(case):
         out.append(dict(case, same_contents=False))
     if case.get("cancel_callers"):
         out.append(dict(case, cancel_callers=[]))
+    if case.get("info_at"):
+        out.append(dict(case, info_at=[]))
     for ci, c in enumerate(case["callers"]):
         for oi, op in enumerate(c["ops"]):
             if op.get("cancel") is not None and not case.get("cancel_mode"):
@@ -308,6 +311,18 @@ def simulate(case):
             t.set_name(f"canceller{j}")
             tasks.append(t)
         if case["level"] == "inverter":
+            for j, at in enumerate(case.get("info_at") or ()):
+                async def refresher(at=at):
+                    # another task refreshes the device info meanwhile (its own outcome is not judged: the peer's
+                    # stamped payloads are no device info)
+                    await asyncio.sleep(at)
+                    try:
+                        await inv.read_device_info()
+                    except Exception:  # noqa
+                        pass
+                t = asyncio.ensure_future(refresher())
+                t.set_name(f"refresher{j}")
+                tasks.append(t)
             for j, spec in enumerate(case.get("toggles") or ()):
                 t = asyncio.ensure_future(toggler(spec))
                 t.set_name(f"toggler{j}")
